@@ -40,6 +40,16 @@ func verifExtMap(names []string) (map[string]string, map[string]bool) {
 	return ext, has
 }
 
+// verifAffix: a valid token with up to two arbitrary octets glued to its start
+// or its end (where trimming or case folding in a validity check would hide them).
+func verifAffix(tok string) string {
+	x := nondetString(2)
+	if nondetBool() {
+		return x + tok
+	}
+	return tok + x
+}
+
 // verifOneLineOrNothing: the octets written by one call are either none or
 // exactly one CRLF-terminated line without any other CR or LF.
 func verifOneLineOrNothing(out []byte, err error, prop string) bool {
@@ -63,7 +73,7 @@ func verif_C15_mail() {
 	ext, has := verifExtMap([]string{"8BITMIME", "SIZE", "REQUIRETLS", "SMTPUTF8", "DSN", "AUTH"})
 	// exactly one argument is hostile (arbitrary octets) per run; the others
 	// are benign. Arguments are processed independently by the client.
-	hostile := verifChoice(4)
+	hostile := verifChoice(5)
 	from := "a@b"
 	if hostile == 0 {
 		from = nondetString(L)
@@ -88,6 +98,8 @@ func verif_C15_mail() {
 			} else {
 				a = nondetString(L)
 			}
+		case 4:
+			opts.Return = DSNReturn(verifAffix([]string{"FULL", "HDRS"}[verifChoice(2)]))
 		}
 	}
 	c, vc := verifClient("250 2.0.0 ok\r\n", ext)
@@ -119,7 +131,7 @@ func verif_C15_mail() {
 func verif_C15_rcpt() {
 	L := verifBound(2, 3)
 	ext, has := verifExtMap([]string{"DSN", "SMTPUTF8", "RRVS"})
-	hostile := verifChoice(4)
+	hostile := verifChoice(6)
 	to := "a@b"
 	if hostile == 0 {
 		to = nondetString(L)
@@ -140,6 +152,11 @@ func verif_C15_rcpt() {
 			}
 		case 3:
 			opts.OriginalRecipientType = DSNAddressType(nondetString(L))
+		case 4:
+			// a VALID token with one arbitrary octet glued to its start or end
+			opts.OriginalRecipientType = DSNAddressType(verifAffix([]string{"rfc822", "utf-8", "RFC822"}[verifChoice(3)]))
+		case 5:
+			opts.Notify = []DSNNotify{DSNNotify(verifAffix("NEVER"))}
 		}
 	}
 	c, vc := verifClient("250 2.0.0 ok\r\n", ext)
